@@ -7,7 +7,7 @@ laws.  Routes are the six hand-written copies of the quaternion->matrix formula
 plus the product and rotation helpers."""
 import numpy as np
 
-from .. import gens
+from .. import forms, gens
 from ..core import Case, call
 from ..oracles import as_real_array
 from ..ref import quat as rq
@@ -54,7 +54,7 @@ def generate(rng, tier, shard, nshards):
             p /= np.linalg.norm(p)
         else:
             q = gens.unit_quat(rng, reg)
-            p = gens.unit_quat(rng, reg if rng.random() < 0.3 else "generic")
+            p = gens.unit_quat(rng, reg if rng.random() < (0.5 if reg in ("axis_aligned", "real") else 0.3) else "generic")
         v = gens.vec3(rng, 1e-6, 1e6)
         V = rng.standard_normal((3, int(rng.integers(1, 6)))) * gens.logu(rng, 1e-3, 1e3)
         yield Case("all", reg, p=p, q=q, v=v, V=V)
@@ -171,4 +171,31 @@ def check(case, ctx):
             ctx.le("normalised object: q_rot(obj, v) = R^T v", np.linalg.norm(rv - Rq.T @ v) / nv, TOL_ROT, route=r)
             ctx.le("normalised object: p.product(obj) = p q", np.abs(pr - pq).max(), TOL_PROD, {"got": pr, "ref": pq}, route=r)
             ctx.le("normalised object: rotate(v) = R v", np.linalg.norm(rot - Rq @ v) / nv, TOL_ROT, route=r)
+    # the same quaternions / vectors written as lists, tuples or integer arrays (exactly representable cases only)
+    if forms.integral(q) or forms.integral(p) or forms.integral(v):
+        from ahrs.common.dcm import DCM
+        Q_, QA_ = ahrs.Quaternion, ahrs.QuaternionArray
+        vi = np.round(v / np.abs(v).max() * 3.0) if not forms.integral(v) else v
+        if not np.any(vi):
+            vi = np.array([1.0, -2.0, 3.0])
+        for route, fn, args in (
+                ("orientation.q_prod", lambda a, b: o.q_prod(a, b), [p, q]),
+                ("orientation.q_prod", lambda a, b: o.q_prod(a, b), [q, p]),
+                ("Quaternion.product", lambda a, b: Q_(a).product(b), [p, q]),
+                ("Quaternion.product", lambda a, b: Q_(a).product(b), [q, p]),
+                ("Quaternion.__mul__", lambda a, b: np.asarray(Q_(a) * b), [p, q]),
+                ("Quaternion.__mul__", lambda a, b: np.asarray(Q_(a) * b), [q, p]),
+                ("Quaternion.__matmul__", lambda a, b: np.asarray(Q_(a) @ Q_(b)), [p, q]),
+                ("Quaternion.__matmul__", lambda a, b: np.asarray(Q_(a) @ Q_(b)), [q, p]),
+                ("orientation.q_rot", lambda a, b: o.q_rot(a, b), [q, vi]),
+                ("Quaternion.rotate(3,)", lambda a, b: Q_(a).rotate(b), [q, vi]),
+                ("Quaternion.rotate(3,N)", lambda a, b: Q_(a).rotate(b), [q, np.array([vi, -vi, vi[::-1]]).T.copy()]),
+                ("Quaternion.to_DCM", lambda a: Q_(a).to_DCM(), [q]),
+                ("QuaternionArray.to_DCM[N]", lambda a: QA_(a).to_DCM(), [np.array([q, p, -q])]),
+                ("DCM(q=)", lambda a: np.asarray(DCM(q=a)), [q]),
+                ("DCM.from_quaternion", lambda a: DCM().from_quaternion(a), [q]),
+                ("DCM.from_quaternion[batch]", lambda a: DCM().from_quaternion(a), [np.array([q, p, -q])]),
+                ("q2R.v1", lambda a: o.q2R(a), [q]), ("q2R.v2", lambda a: o.q2R(a, version=2), [q]),
+                ("q2R.v1[batch]", lambda a: o.q2R(a), [np.array([q, p, -q])])):
+            forms.invariant(ctx, route, fn, args)
     ctx.le("reference self-check: scalar part of q v q* is 0", abs(qvq[0]) / nv, 1e-14, route="Quaternion.rotate(3,)")
